@@ -865,3 +865,51 @@ Proof.
   - intros lp Hlp. eapply pres_bind; [apply pres_push; exact I|intros _ _].
     eapply pres_bind; [apply pres_dec_ip|intros _ _]. apply pres_ret. apply isptr_clean, Hlp.
 Qed.
+
+(* ------------------------------------------------------------------ statements in plain form *)
+(* compile_expression from ANY datum, in ANY state satisfying the invariant, onto any
+   unfinished lambda whose (reversed) bytecode is [good] — in particular the empty one:
+   the state afterwards (constants, symbols, lambdas, macros, global bindings) satisfies
+   [finv], the result is [good] and its finished bytecode satisfies [bc_ok]; on a
+   compile error the state still satisfies [finv] *)
+Theorem compile_bc_ok f l tail e s :
+  finv s -> good (l_bc l) ->
+  match compile_expression f l tail e s with
+  | ROk l' s' => finv s' /\ good (l_bc l') /\ bc_ok (l_bc (lambda_finish l'))
+  | RErr _ _ s' => finv s'
+  | _ => True
+  end.
+Proof.
+  intros F G. pose proof (pres_compile_expression f l tail e s F I) as P.
+  destruct (compile_expression f l tail e s) as [l' s'| | |]; cbn [post] in P; auto.
+  destruct P as [F' H]. pose proof (ext_good _ _ H G) as G'. auto using good_finish.
+Qed.
+Theorem compile_quasiquote_bc_ok f l e d s :
+  finv s -> good (l_bc l) ->
+  match compile_quasiquote f l e d s with
+  | ROk l' s' => finv s' /\ good (l_bc l') /\ bc_ok (l_bc (lambda_finish l'))
+  | RErr _ _ s' => finv s'
+  | _ => True
+  end.
+Proof.
+  intros F G. pose proof (pres_compile_quasiquote f l e d s F I) as P.
+  destruct (compile_quasiquote f l e d s) as [l' s'| | |]; cbn [post] in P; auto.
+  destruct P as [F' H]. pose proof (ext_good _ _ H G) as G'. auto using good_finish.
+Qed.
+Theorem compile_runnable_bc_ok e s :
+  finv s ->
+  match compile_runnable e s with
+  | ROk l s' => finv s' /\ bc_ok (l_bc (lambda_finish l))
+  | RErr _ _ s' => finv s'
+  | _ => True
+  end.
+Proof.
+  intros F. pose proof (pres_compile_runnable e s F I) as P.
+  destruct (compile_runnable e s) as [l' s'| | |]; cbn [post] in P; auto.
+  destruct P as [F' G]. auto using good_finish.
+Qed.
+(* a lambda with no bytecode yet is a valid starting point *)
+Lemma good_lambda_new args : good (l_bc (lambda_new args)).
+Proof. apply good_nil. Qed.
+Theorem good_bc_ok bc : good bc -> bc_ok (rev bc).
+Proof. intros [H _]. apply chain_bc_ok, H. Qed.
